@@ -466,7 +466,7 @@ theorem run_convAll : ∀ (ts : List TestIn) (s : St),
 
 /-- **C09 (one report per test)**: the consumer behind the stream sees, for every history, exactly one completed
 record per test, in order, and nothing is left over when the run stops. -/
-theorem consume_convAll (s : St) (ts : List TestIn) : consume (convAll s ts) = reportsOf s ts := by
+theorem C09_one_report_per_test (s : St) (ts : List TestIn) : consume (convAll s ts) = reportsOf s ts := by
   obtain ⟨h1, h2⟩ := run_convAll ts s
   simp [consume, consumeKeyed, h1, h2, flush]
 
@@ -493,7 +493,7 @@ theorem toExtended_convAll (s : St) (ts : List TestIn) :
     rw [List.filter_eq_self]
     intro e he
     simpa using convAll_no_exist ts s e he
-  simp only [toExtended, this, consume_convAll]
+  simp only [toExtended, this, C09_one_report_per_test]
 
 theorem reportsOf_status : ∀ (ts : List TestIn) (s : St), ∀ r ∈ reportsOf s ts, r.status ≠ .exist
   | [], _, r, hr => by simp [reportsOf] at hr
